@@ -140,7 +140,7 @@ def eraseFills (o : Obs) : Obs :=
 /-- the Spec on an observation without fill events: errors and configuration in full (the user's settings ARE
 applied), the per-call structure (default-config / constructor / factory invocations, identities, views) as for a
 run without fillConf -/
-def judgeHook (inp : Input) (obs : Option Obs) (bad : Bool) : String :=
+def judgeHook (inp : Input) (obs : Option Obs) (bad : Bool) (skipConfig : Bool := false) : String :=
   let noFill : Input := { inp with w := { inp.w with hasFill := false } }
   match obs with
   | none => judge inp obs fields
@@ -153,7 +153,7 @@ def judgeHook (inp : Input) (obs : Option Obs) (bad : Bool) : String :=
     if !registerOk inp.sh then "fail:registered:invalid registration accepted"
     else if o.steps.any (fun s => s.evs.any isFill) then "fail:driver:fill event on the hook path"
     else if !errorsOk inp restored then "fail:errors:error not delivered as the error result / panic rule"
-    else if !configOk inp o fields then "fail:config:product config is not defaults overlaid by user settings"
+    else if !skipConfig && !configOk inp o fields then "fail:config:product config is not defaults overlaid by user settings"
     else if !bad && freshApplies noFill && !freshOk noFill o then "fail:fresh:config not created per product or shared between products"
     else if !bad && onceApplies noFill && !onceOk noFill o then "fail:once:factory constructor not configured exactly once"
     else if !structOkBy resFill noFill o then "fail:counts:user code invoked in another number or order than the constructor shape prescribes"
@@ -263,7 +263,123 @@ def handleEngine (input impl : String) : String × String :=
       (showEngine m, judgeEngine inp inst m (parseKV impl))
   | _, _ => ("-", "fail:driver:unparsable input")
 
+/-! ### `hist=1`: several creations on one registration -/
+
+/-- "f1:1:_/9/_:3" -/
+def parsePhase (s : String) : Option Phase :=
+  match s.splitOn ":" with
+  | [f, fill, u, k] => do pure { form := ← parseForm f, hasFill := fill == "1", user := ← parseCfg u, k := ← k.toNat? }
+  | _ => none
+
+def parseHist (kv : List (String × String)) : Option HInput := do
+  let sh ← parseShape (getS kv "sh")
+  let d ← parseCfg (getS kv "d")
+  let ff ← parseNats (getS kv "ff")
+  let cf ← parseNats (getS kv "cf")
+  let rf ← parseNats (getS kv "rf")
+  let phases ← (splitList (getS kv "ph") "|").mapM parsePhase
+  pure { sh, dflt := d, fillFault := ff.contains, ctorFault := cf.contains, factFault := rf.contains, phases }
+
+def showSteps (sh : Shape) (steps : List Step) : String :=
+  ";".intercalate (steps.map fun s => "|".intercalate (s.evs.map (showEv sh)) ++ ">" ++ showRes s.res)
+
+def showViews (vs : List (Nat × Int)) : String := ",".intercalate (vs.map fun v => s!"{v.1}:{v.2}")
+
+/-- the harness numbers configuration objects in the order in which it first SEES them (a struct config that is
+never handed to fillConf is never seen); the model numbers them in allocation order: rename the model's identities
+by first appearance in what is printed -/
+def renumber (sh : Shape) (phases : List Obs) : List Obs :=
+  let shown (s : Step) : List Nat :=
+    (s.evs.filterMap fun e =>
+      match e with
+      | .fill _ a _ => a
+      | .ctor _ c _ => if sh.cfg = .ptr then c else none
+      | _ => none) ++
+    (match s.res with | .ok p => p.cell.toList | _ => [])
+  let order := (phases.flatMap fun o => o.steps.flatMap shown).foldl (fun acc c => if acc.contains c then acc else acc ++ [c]) []
+  let ren (c : Nat) : Nat := (order.findIdx? (· == c)).getD c
+  phases.map fun o => { o with steps := o.steps.map fun s =>
+    { evs := s.evs.map fun e =>
+        match e with
+        | .fill i a ok => .fill i (a.map ren) ok
+        | .ctor i c ok => .ctor i (c.map ren) ok
+        | e => e
+      res := match s.res with
+        | .ok p => .ok { p with cell := p.cell.map ren }
+        | r => r } }
+
+def showHist (sh : Shape) : Option HObs → String
+  | none => "regpanic"
+  | some o =>
+    s!"hist steps={"#".intercalate (o.phases.map fun ob => showSteps sh ob.steps)} pv={"#".intercalate (o.phases.map fun ob => showViews ob.views)} views={showViews o.views}"
+
+def parseViews (s : String) : Option (List (Nat × Int)) :=
+  (splitList s).mapM fun v =>
+    match v.splitOn ":" with
+    | [a, b] => do pure ((← a.toNat?), (← b.toInt?))
+    | _ => none
+
+def parseHistObs (s : String) : Option (Option HObs) :=
+  if s == "regpanic" then some none else do
+  let kv := parseKV s
+  let ps ← ((getS kv "steps").splitOn "#").mapM fun p => (splitList p ";").mapM parseStep
+  let pvs ← ((getS kv "pv").splitOn "#").mapM parseViews
+  if ps.length != pvs.length then none else
+  pure (some ⟨(ps.zip pvs).map fun x => ⟨x.1, x.2⟩, ← parseViews (getS kv "views")⟩)
+
+/-- the single-creation Spec on one phase, with the key of the clause that fails (the configuration clause is not
+judged for a shared default pointer: there earlier creations' settings stay in the shared object) -/
+def judgePhaseH (inp : Input) (o : Obs) (hook : Bool) : String :=
+  if hook then judgeHook inp (some o) false (inp.sh.dflt == .shared)
+  else if !errorsOk inp o then "fail:errors:error not delivered as the error result / panic rule"
+  else if inp.sh.dflt != .shared && !configOk inp o fields then "fail:config:product config is not the defaults overlaid by the settings of ITS creation"
+  else if freshApplies inp && !freshOk inp o then "fail:fresh:config not created+filled per product or shared between products"
+  else if onceApplies inp && !onceOk inp o then "fail:once:factory constructor not configured exactly once"
+  else if percallApplies inp && !percallOk inp o then "fail:fresh:a product not built by its own default-config + fillConf + constructor call"
+  else if !structOk inp o then "fail:counts:user code invoked in another number or order than the constructor shape prescribes"
+  else "ok"
+
+def zeroSeen (sh : Shape) (o : Obs) : Obs :=
+  if sh.cfg = .none then
+    { o with steps := o.steps.map fun s =>
+        match s.res with
+        | .ok p => if p.seen == [(0, 0), (1, 0), (2, 0), (3, 0)] then { s with res := .ok { p with seen := [] } } else s
+        | _ => s }
+  else o
+
+def handleHist (input impl : String) : String × String :=
+  let kv := parseKV input
+  match parseHist kv with
+  | none => ("-", "fail:driver:unparsable history")
+  | some h =>
+    let hook := getS kv "via" == "hook"
+    let mo := runHist h
+    let mo := if hook then mo.map fun o => { o with phases := o.phases.map eraseFills } else mo
+    let mo := mo.map fun o => { o with phases := renumber h.sh o.phases }
+    let m := showHist h.sh mo
+    if ((getS (parseKV impl) "steps").splitOn "#").any (fun ph => (splitList ph ";").any (·.endsWith ">nil")) then
+      (m, "fail:errors:nil component with nil error (an error did not reach the caller)")
+    else if (impl.splitOn ">err.other:").length > 1 || (impl.splitOn ">panic.other:").length > 1 then
+      (m, "fail:errors:an error or panic that is none of the constructor / config errors reached the caller")
+    else
+    match parseHistObs impl with
+    | none => (m, s!"fail:crash:unparsable observation {impl.take 120}")
+    | some none => (m, judgeHist h none fields)
+    | some (some o) =>
+      if !registerOk h.sh then (m, "fail:registered:invalid registration accepted")
+      else if o.phases.length != h.phases.length then (m, "fail:crash:number of phases")
+      else
+        let o : HObs := { o with phases := o.phases.map (zeroSeen h.sh) }
+        let bad := ((h.phases.zip o.phases).map fun x => judgePhaseH (h.input x.1) x.2 hook).filter (· != "ok")
+        match bad with
+        | v :: _ => (m, v)
+        | [] =>
+          if !histCrossOk h o then
+            (m, "fail:fresh:products of different creations share a configuration object or a later creation disturbed an earlier product")
+          else (m, "ok")
+
 def handle : Handler := fun input impl =>
+  if getS (parseKV input) "hist" == "1" then handleHist input impl else
   if getS (parseKV input) "via" == "reg" then handleReg (parseKV input) impl else
   if getS (parseKV input) "via" == "engine" then handleEngine input impl else
   match parseInput input with
@@ -276,6 +392,8 @@ def handle : Handler := fun input impl =>
     -- `nil` by the harness) has no place in `Res`: that is an error that did not reach the caller
     if (splitList (getS (parseKV impl) "steps") ";").any (fun st => st.endsWith ">nil") then
       (m, "fail:errors:nil component with nil error (an error did not reach the caller)")
+    else if (impl.splitOn ">err.other:").length > 1 || (impl.splitOn ">panic.other:").length > 1 then
+      (m, "fail:errors:an error or panic that is none of the constructor / config errors reached the caller")
     else
     match parseObs impl with
     | none => (m, s!"fail:crash:unparsable observation {impl.take 120}")
